@@ -305,8 +305,15 @@ impl ProofGraph {
             if changed && !node.valid {
                 self.stats.invalidations += 1;
 
-                // Get dependents and propagate recursively
-                let further_deps = node.dependents.clone();
+                // Get dependents and propagate recursively. Read them from the graph-level
+                // `dependencies` map: it is written for every premise on every insertion,
+                // whereas `node.dependents` is only filled in when the premise's node already
+                // existed (a dependent inserted before its premise would be missed).
+                let further_deps: Vec<FactHandle> = self
+                    .dependencies
+                    .get(dependent_handle)
+                    .map(|deps| deps.iter().copied().collect())
+                    .unwrap_or_default();
                 for further_dep in further_deps {
                     self.propagate_invalidation(&further_dep, dependent_handle);
                 }
